@@ -100,6 +100,11 @@ def gen_ser_ops(rng, nmsgs, stats, allow_raw_type1=False):
             if drop: bump(stats, "droppable")
             cadence = None if rem <= 1 or rng.chance(1, 10) else (typ, msid, ln, delta, rem - 1)
             continue
+        if rng.chance(1, 40):
+            # a REFUSED chunk-size change (no packet): it must leave no trace - not in the size, not in the header history
+            ops.append(f"ser.setcs {rng.choice([0, 1 << 31, M32 - 1])} {rng.choice([0, 5, 0xFFFFFF, rng.below(M32)])}")
+            bump(stats, "setcs_refused")
+            continue
         if rng.chance(1, 7):
             n = rng.choice(CS_VALUES + [rng.range(1, 400)])
             ts = rng.choice([0, 5, 0xFFFFFF, rng.below(M32)])
